@@ -395,6 +395,14 @@ def transformation(trpl, surface):
     '''
     if not trpl:
         return surface
+    if surface.type_surface == MS.SQ:
+        # the parameters of an SQ are not those of a GQ, and the image of an SQ
+        # is not an SQ in general: express the surface as a GQ first
+        from ..Surface.ConversionSurfaceMCNPToT4 import convert_special_quadric
+        _, gq_params = convert_special_quadric(surface)
+        surface = SurfaceMCNP(surface.boundary_cond, MS.GQ,
+                              surface.param_surface, gq_params,
+                              surface.idorigin)
     if surface.type_surface in (MS.SQ, MS.GQ):
         frame = tuple(surface.param_surface)
         params = transformation_quad(surface.compl_param, trpl)
